@@ -79,19 +79,26 @@ def check_bs(case) -> Outcome:
         lb, ub = lo0 + 0.2 * (hi0 - lo0), hi0 - 0.15 * (hi0 - lo0)
     elif case["bounds"] == "outer":
         lb, ub = lo0 - 0.1 * (hi0 - lo0), hi0 + 0.2 * (hi0 - lo0)
+    elif case["bounds"] == "inner-lower":
+        # only one bound is given, the other one comes from the data
+        lb = lo0 + 0.2 * (hi0 - lo0)
+    elif case["bounds"] == "inner-upper":
+        ub = hi0 - 0.15 * (hi0 - lo0)
     elif case["bounds"] == "zero":
         # an explicit bound that is exactly 0 (falsy)
         if hi0 <= 0:
             lb, ub = lo0 - 0.1 * (hi0 - lo0), 0.0
         else:
             lb, ub = 0.0, hi0 + (0.1 * (hi0 - lo0) if lo0 > 0 else 0.0)
-    lo, hi = (lb, ub) if lb is not None else (lo0, hi0)
+    lo, hi = (lb if lb is not None else lo0), (ub if ub is not None else hi0)
     if not hi0 > lo0 or not hi > lo:
         out.label("excluded:constant-data")
         return out
     kwargs = dict(degree=k, include_intercept=icpt, extrapolation=mode)
     if lb is not None:
-        kwargs.update(lower_bound=lb, upper_bound=ub)
+        kwargs.update(lower_bound=lb)
+    if ub is not None:
+        kwargs.update(upper_bound=ub)
     inner = None
     if case["df_extra"] is not None:
         df = k + (1 if icpt else 0) + case["df_extra"]
@@ -258,7 +265,7 @@ def gen_bs():
             "degree": st.integers(0, 5),
             "include_intercept": st.booleans(),
             "extrapolation": st.sampled_from(["raise", "clip", "na", "zero", "extend"]),
-            "bounds": st.sampled_from(["data", "data", "inner", "outer", "zero"]),
+            "bounds": st.sampled_from(["data", "data", "inner", "outer", "zero", "inner-lower", "inner-upper"]),
             "df_extra": st.one_of(st.none(), st.integers(0, 6)),
             # (0.0 / 1.0: an inner knot tied to a boundary)
             "knot_fracs": st.lists(st.sampled_from([0.1, 0.25, 0.3, 0.5, 0.5, 0.75, 0.9, 0.0, 1.0]), max_size=5),
@@ -288,18 +295,24 @@ def check_cs(case) -> Outcome:
         lb, ub = lo0 + 0.2 * (hi0 - lo0), hi0 - 0.15 * (hi0 - lo0)
     elif case["bounds"] == "outer":
         lb, ub = lo0 - 0.1 * (hi0 - lo0), hi0 + 0.2 * (hi0 - lo0)
+    elif case["bounds"] == "inner-lower":
+        lb = lo0 + 0.2 * (hi0 - lo0)
+    elif case["bounds"] == "inner-upper":
+        ub = hi0 - 0.15 * (hi0 - lo0)
     elif case["bounds"] == "zero":
         if hi0 <= 0:
             lb, ub = lo0 - 0.1 * (hi0 - lo0), 0.0
         else:
             lb, ub = 0.0, hi0 + (0.1 * (hi0 - lo0) if lo0 > 0 else 0.0)
-    lo, hi = (lb, ub) if lb is not None else (lo0, hi0)
+    lo, hi = (lb if lb is not None else lo0), (ub if ub is not None else hi0)
     if not hi0 > lo0 or not hi > lo:
         out.label("excluded:constant-data")
         return out
     kwargs = dict(extrapolation=mode)
     if lb is not None:
-        kwargs.update(lower_bound=lb, upper_bound=ub)
+        kwargs.update(lower_bound=lb)
+    if ub is not None:
+        kwargs.update(upper_bound=ub)
     ncons = 0 if cons is None else 1
     if case["df_extra"] is not None:
         min_df = 1 if (cyclic or ncons) else 2
@@ -470,7 +483,7 @@ def gen_cs():
             "nan_pos": st.one_of(st.none(), st.integers(0, 59)),
             "extrapolation": st.sampled_from(["raise", "clip", "na", "zero", "extend", "extend"]),
             "knot_order": st.sampled_from([0, 0, 1, 2, 3]),
-            "bounds": st.sampled_from(["data", "data", "inner", "outer", "zero"]),
+            "bounds": st.sampled_from(["data", "data", "inner", "outer", "zero", "inner-lower", "inner-upper"]),
             "constraints": st.sampled_from([None, None, "center", "center", "array"]),
             "df_extra": st.one_of(st.none(), st.integers(0, 5), st.integers(0, 1)),
             "knot_fracs": st.lists(st.sampled_from([0.1, 0.25, 0.3, 0.5, 0.6, 0.75, 0.9]), max_size=5),
